@@ -563,6 +563,9 @@ def requery_cases(draw, tier):
 RULE_ROUND8 = ' One generated forest in 20 (60 in the thorough tier) is a BIG one (gen.big_specs: a child list of 11..300 nodes, that many clones of one data object, more than 256 nodes), with node references aimed at notable positions of the long child lists. (width <= 130). Control signals also as instances of application-defined subclasses of SkipBranch / StopTraversal, returned and raised.'
 RULE = RULE + RULE_ROUND8
 
+RULE_ROUND9 = " Every method's result is consumed through the iterator protocol (iter(it) is it, next()); two traversals of one start are consumed in lock step (zip) and a traversal is abandoned after its first node before another one runs."
+RULE = RULE + RULE_ROUND9
+
 PARTS = [
     Part("exhaustive", run, enum=enum_cases),
     Part("random-deep-wide", run, strategy=lambda tier: hyp_cases(tier), n={"quick": 100, "thorough": 20000}),
